@@ -228,6 +228,8 @@ Definition fmath (f : mathfn) (args : list lit) : option lit :=
   | MFloat 2, [a] => Some (make_float_literal a (Bnearbyint mode_UP (literal_to_f64 a)))    (* ceil *)
   | MFloat 3, [a] => Some (make_float_literal a (Bnearbyint mode_DN (literal_to_f64 a)))    (* floor *)
   | MFloat 4, [a] => Some (make_float_literal a (Bnearbyint mode_NE (literal_to_f64 a)))    (* round: RoundToEven *)
+  | MFloat 5, [a] => let v := literal_to_f64 a in                                          (* fract: v - math.Floor(v) in float64 *)
+                     Some (make_float_literal a (sub64f v (Bnearbyint mode_DN v)))
   | MFloat 6, [a] => Some (make_float_literal a (Bnearbyint mode_ZR (literal_to_f64 a)))    (* trunc *)
   | MFloat 7, [a] => Some (make_float_literal a (Bsqrt mode_NE (literal_to_f64 a)))         (* sqrt: math.Sqrt is correctly rounded *)
   | MFloat 8, [edge; x] => Some (make_float_literal edge (if le64f (literal_to_f64 edge) (literal_to_f64 x) then f64_of_Z 1 else B754_zero false))  (* step *)
